@@ -35,6 +35,7 @@ type Exec struct {
 	spec      *FuncSpec
 	nfresh    int
 	afterCovers map[string]int
+	izGhosts    []string
 	genCtr    int
 	obligs    []*Oblig
 	notes     map[string]bool
@@ -91,6 +92,14 @@ func (x *Exec) assumeIn(st *State, t *Term) {
 	}
 	if t == tFalse {
 		st.dead = true
+	}
+	// a conjunction is kept as separate hypotheses (quantified conjuncts become top-level, which instantiation and the
+	// hypothesis-subset retry work on)
+	if t.Op == "and" && len(t.Bound) == 0 && len(t.Args) > 1 {
+		for _, a := range t.Args {
+			x.assumeIn(st, a)
+		}
+		return
 	}
 	st.pc = append(st.pc, t)
 }
